@@ -95,6 +95,14 @@ var sites = []siteSpec{
 	{"pkg/v2/ocr.go", "ocrPlugin.Report"},
 	{"pkg/v2/ocr.go", "ocrPlugin.Observation"},
 	{"tools/simulator/util/sort.go", "SortedKeyMap.Keys"},
+	{"tools/simulator/telemetry/progress.go", "ProgressTelemetry.checkProgress"},
+	{"tools/simulator/telemetry/progress.go", "ProgressTelemetry.track"},
+	{"cmd/simulator/main.go", "main"},
+	{"tools/simulator/config/simulation.go", "SimulationPlan.Encode"},
+	{"tools/simulator/config/simulation.go", "DecodeSimulationPlan"},
+	{"tools/simulator/node/statistics.go", "findMedianAndSplitData"},
+	{"tools/simulator/node/stats.go", "newUpkeepStatsBuilder"},
+	{"tools/simulator/simulate/loader/ocr3transmit.go", "OCR3TransmitLoader.Load"},
 	{"pkg/util/worker.go", "NewWorkerGroup"},
 	{"pkg/util/worker.go", "WorkerGroup.Do"},
 	{"pkg/util/worker.go", "WorkerGroup.Stop"},
